@@ -449,6 +449,84 @@ func c18Cursor(c *Check) {
 }
 
 // C03.U — case analysis of unstable.truncateAndAppend.
+// cStorageSnapshot — C18.P: MemoryStorage.ApplySnapshot replaces the stored log by the snapshot:
+// afterwards the entry array is a fresh one-element array holding only the marker (snapshot
+// index, snapshot term). raft.restore relies on it: whatever followed the snapshot point in
+// storage (a divergent tail of an older term) must be gone.
+func cStorageSnapshot(c *Check) {
+	p := c.P
+	aps := p.Method("raft", "MemoryStorage", "ApplySnapshot")
+	entsF := p.Field("raft", "MemoryStorage", "ents")
+	entryT := p.Type("raftpb", "Entry")
+	if aps == nil || entsF == nil || entryT == nil {
+		return
+	}
+	fi := p.Info(aps)
+	snap := fi.Sym(aps.Params[1])
+	n := 0
+	covered := false
+	for _, st := range p.StoresTo(entsF) {
+		if st.Fn != aps || st.Whole {
+			continue
+		}
+		n++
+		ok := false
+		detail := "value " + fi.Sym(st.Val).Key()
+		if sl, isSl := st.Val.(*ssa.Slice); isSl && sl.Low == nil && sl.High == nil {
+			if al, isAl := sl.X.(*ssa.Alloc); isAl {
+				if arr, isArr := al.Type().Underlying().(*types.Pointer).Elem().Underlying().(*types.Array); isArr && arr.Len() == 1 {
+					// the single element
+					for _, lit := range p.Lits(entryT) {
+						if lit.Fn != aps {
+							continue
+						}
+						ix, tm := lit.FieldSym(p, "Index"), lit.FieldSym(p, "Term")
+						if ix != nil && tm != nil && strings.Contains(ix.Key(), snap.Key()) && strings.HasSuffix(ix.Key(), ".GetMetadata().GetIndex()") && strings.Contains(tm.Key(), snap.Key()) && strings.HasSuffix(tm.Key(), ".GetMetadata().GetTerm()") {
+							for _, in := range p.liveInstrsOf(aps) {
+								if es, isSt := in.(*ssa.Store); isSt && es.Val == ssa.Value(lit.Alloc) {
+									if ia, isIA := es.Addr.(*ssa.IndexAddr); isIA && ia.X == ssa.Value(al) {
+										ok = true
+									}
+								}
+							}
+							detail = "marker {Index: " + ix.Key() + ", Term: " + tm.Key() + "}"
+						}
+					}
+				}
+			}
+		}
+		if mk, isMk := st.Val.(*ssa.MakeSlice); isMk && !ok {
+			// make([]*pb.Entry, 1[, n]) filled afterwards: the old log is dropped all the same
+			if k, isK := mk.Len.(*ssa.Const); isK && k.Value != nil && k.Value.String() == "1" {
+				ok = true
+				detail = "fresh make(..., 1)"
+			}
+		}
+		if ok && mustPassToNilReturn(fi, st.Instr) {
+			covered = true
+		}
+		c.Result(ok, "C18.P", "store MemoryStorage.ents in ApplySnapshot", fnName(aps), p.site(st.Instr), "ents <- fresh one-element array {marker(snapshot index, snapshot term)}: the old log is dropped entirely", sanitizeKey(detail))
+	}
+	c.Result(n >= 1 && covered, "C18.P", "ApplySnapshot replaces the log", fnName(aps), p.Pos(aps.Pos()), "every successful return has reset ents to the marker", fmt.Sprint(n, " store(s)"))
+}
+
+// mustPassToNilReturn: every path from entry to a return of a nil error passes through in.
+func mustPassToNilReturn(fi *FuncInfo, in ssa.Instruction) bool {
+	for _, ret := range returnsOf(fi) {
+		if len(ret.Results) == 0 {
+			continue
+		}
+		ev := fi.RetSym(ret, len(ret.Results)-1)
+		if ev.K != KNil {
+			continue
+		}
+		if !fi.InstrDominates(in, ret) {
+			return false
+		}
+	}
+	return true
+}
+
 func c03Unstable(c *Check) {
 	p := c.P
 	taa := p.Method("raft", "unstable", "truncateAndAppend")
